@@ -15,7 +15,7 @@ ARGV = [b"", b"x", b"a.b", b"a.b.c", b"/", b"/a", b"/a/", b"/a/b", b"com.example
 
 DEFAULT_WEIGHTS = {
     "connect": 4, "hello": 6, "close": 2, "request": 14, "release": 7, "query": 6, "addmatch": 8, "removematch": 4,
-    "signal": 12, "call": 12, "reply": 8, "driver_edge": 5, "forged": 6, "garbage": 1, "badtype": 2, "nodest": 2, "sleep": 0,
+    "signal": 12, "call": 12, "reply": 8, "driver_edge": 5, "forged": 6, "garbage": 1, "badtype": 2, "nodest": 2, "sleep": 0, "monitor": 0,
 }
 
 
@@ -94,7 +94,7 @@ class Gen:
         if r < 0.8 and uniques:
             return self.r.choice(uniques)
         if r < 0.9:
-            return (":1.%d" % self.r.randint(0, self.next_unique + 2)).encode()
+            return (":1.%d" % self.r.randint(1, self.next_unique + 2)).encode()
         return self.r.choice([b"com.example.Nobody", b"org.freedesktop.DBus"])
 
     def body(self):
@@ -122,6 +122,18 @@ class Gen:
             k = "signal"
         if k == "connect":
             k = "request"
+        if k == "monitor":
+            cid = self.some_conn(active=True) or self.some_conn()
+            x = self.r.random()
+            if x < 0.45: rules = []
+            elif x < 0.9: rules = [self.gen_rule() for _ in range(self.r.choice([1, 1, 2, 3]))]
+            else: rules = [b"type='signal'", b"bogus"]
+            flags = 0 if self.r.random() < 0.93 else 1
+            s = self.serial(cid)
+            self.send(cid, method_call(s, BUS, BUS_PATH if self.r.random() < 0.93 else "/", "org.freedesktop.DBus.Monitoring",
+                                       "BecomeMonitor", "asu", [rules, flags]))
+            self.count("monitor")
+            return
         if k == "sleep":
             self.ops.append(("sleep",)); self.count("sleep"); self.calls = []
             return
